@@ -167,6 +167,38 @@ def quote_symmetry(ctx, cr):
     ctx.ob(rule, rule + ":same-parser-both-quotes", sorted(map(str, quotes)) == ['"', "'"], "parse_string instantiates parse_string_inner with %s (expected ' and \")" % quotes, fn=f,
            sample={"quotes": quotes})
 
+    # inside the shared parser every delimiter-valued character is the parameter `ch`: the opening and the closing char(..), the
+    # take_while stop test and — for an escaped delimiter — the character put into the parsed string
+    body = cr.fns.get(P + "parse_string_inner::{closure#0}")
+    if not body:
+        ctx.lost(rule, rule + ":delimiter-uses", P + "parse_string_inner::{closure#0}")
+        return
+    from rules.c08 import def_of_local
+
+    def is_ch(operand, depth=0):
+        """operand is a copy of the captured `ch` (read through the closure environment, local 1)"""
+        if "k" in operand:
+            return False
+        pl = M.op_place(operand)
+        if pl is None or depth > 5:
+            return False
+        if not isinstance(pl, int):
+            return M.place_local(pl) == 1
+        d = def_of_local(body, pl)
+        if d and d[0] == "stmt" and d[2]["rv"]["r"] == "use":
+            return is_ch(d[2]["rv"]["o"], depth + 1)
+        return False
+    uses = []
+    for bi, t in M.iter_calls(body):
+        p = M.norm_path(t["fn"].get("path", ""))
+        if p == "nom::character::complete::char":
+            uses.append(("char(..) l.%s" % t.get("ln"), is_ch(t["args"][0])))
+        elif p == "std::string::String::push":
+            uses.append(("push(..) l.%s" % t.get("ln"), is_ch(t["args"][1])))
+    bad = [u for u, ok in uses if not ok]
+    ctx.ob(rule, rule + ":delimiter-uses", not bad and len(uses) >= 3, ("%s does not use the delimiter the parser was instantiated with: a literal written with the other quote style means something else" % bad) if bad
+           else "%d delimiter uses, all the captured ch" % len(uses), fn=body, sample={"uses": [u for u, _ in uses]})
+
 
 def index_forms(ctx, cr):
     rule = "R-C14-index-forms"
@@ -273,6 +305,17 @@ def default_rule(ctx, cr):
                 if c and c[0] == "str":
                     dv = c[1]
     ctx.ob(rule, rule + ":named-default", bool(names) and (dv in (None, "default") or "default" in names), "the implicit rule must be named `default` (constant value %r)" % dv, fn=f, sample={"name": dv or "default"})
+    # one file-level expression = ONE line (conjunct) of the default rule: a file-level `A or B` must stay one disjunction
+    from rules.c19 import receiver_name
+    meths = {}
+    for bi, t in M.iter_calls(f):
+        pth = M.norm_path(t["fn"].get("path", ""))
+        if t["args"] and receiver_name(f, t["args"][0]) == "default_rule_clauses":
+            meths.setdefault(pth.split("::")[-1], []).append(t.get("ln"))
+    spread = {m: l for m, l in meths.items() if m in ("extend", "append", "extend_from_slice", "extend_one", "splice")}
+    ctx.ob(rule, rule + ":one-line-per-expression", not spread and len(meths.get("push", [])) >= 3,
+           ("default_rule_clauses is filled through %s: the alternatives of one file-level `or` line become separate conjunct lines of the default rule" % spread) if spread
+           else "each file-level clause / type block / when block is pushed as one line (%d pushes)" % len(meths.get("push", [])), fn=f)
     ins0 = False
     for bi, t in M.iter_calls(f):
         if M.norm_path(t["fn"].get("path", "")) == "std::vec::Vec::insert" and len(t["args"]) == 3:
@@ -282,6 +325,69 @@ def default_rule(ctx, cr):
     ctx.ob(rule, rule + ":placed-first", ins0, "the implicit rule must be inserted at index 0 of the rule list", fn=f)
 
 
+BARE_WS = ("multispace0", "multispace1", "space0", "space1")
+# functions that may skip blanks WITHOUT accepting comments, each because the position is inside one clause / token sequence,
+# not "between or after clauses" (the property's comment positions)
+BARE_WS_REVIEWED = {
+    "rules::parser::white_space_or_comment": "the comment-aware skipper itself (multispace1 is one of its alternatives)",
+    "rules::parser::comment2": "blanks before the '#' of a comment",
+    "rules::parser::call_expr": "between the arguments of a function call, inside one expression",
+    "rules::parser::parameter_names": "between the formal parameter names of a parameterised rule head",
+    "rules::parser::not": "the blank that must follow the keyword `not` (same line)",
+    "rules::parser::range_value": "inside a range literal r(a, b)",
+    "rules::parser::rule_clause": "between the name of a referenced rule and its custom message / end of line (the newline ends the clause)",
+    "rules::parser::variable_capture_in_map_or_index": "around the `|` of a key capture inside [ k | filter ]",
+}
+
+
+def comments_are_whitespace(ctx, cr):
+    """every place of the grammar that skips layout between or after clauses must go through the comment-aware skippers
+    (zero_or_more_ws_or_comment / one_or_more_ws_or_comment); nom's bare blank skippers appear only in the reviewed intra-clause
+    positions.  A bare skipper anywhere else makes a `#` comment at that position a parse error."""
+    rule = "R-C14-comments-are-whitespace"
+
+    def consts(o, acc):
+        if isinstance(o, dict):
+            if "k" in o and isinstance(o["k"], dict) and "ty" in o["k"]:
+                acc.append(o["k"])
+            for v in o.values():
+                consts(v, acc)
+        elif isinstance(o, list):
+            for v in o:
+                consts(v, acc)
+    users = {}
+    aware = 0
+    for k, f in sorted(cr.fns.items()):
+        if not k.startswith(P) or f.get("file", "").endswith("_tests.rs"):
+            continue
+        owner = k.split("::{closure")[0]
+        acc = []
+        consts(f["blocks"], acc)
+        for c in acc:
+            t = cr.types[c["ty"]]
+            if t["k"] != "fndef":
+                continue
+            path = M.norm_path(t.get("p", ""))
+            if path.startswith("nom::character::complete::") and path.split("::")[-1] in BARE_WS:
+                users.setdefault(owner, set()).add(path.split("::")[-1])
+            if path in (P + "zero_or_more_ws_or_comment", P + "one_or_more_ws_or_comment"):
+                aware += 1
+        for bi, t in M.iter_calls(f):
+            path = M.norm_path(t["fn"].get("path", ""))
+            if path.startswith("nom::character::complete::") and path.split("::")[-1] in BARE_WS:
+                users.setdefault(owner, set()).add(path.split("::")[-1])
+            if path in (P + "zero_or_more_ws_or_comment", P + "one_or_more_ws_or_comment"):
+                aware += 1
+    if aware < 40:
+        ctx.lost(rule, rule + ":floor", "only %d uses of the comment-aware skippers found in the parser (floor 40)" % aware)
+    for owner in sorted(users):
+        why = BARE_WS_REVIEWED.get(owner)
+        f = cr.fns.get(owner) or next(v for kk, v in cr.fns.items() if kk.startswith(owner))
+        ctx.ob(rule, "%s:%s" % (rule, owner), why is not None, ("reviewed: " + why) if why else
+               "%s skips blanks with nom's %s, which does not accept `#` comments; every other layout position between/after clauses uses zero_or_more_ws_or_comment" % (owner, sorted(users[owner])), fn=f,
+               sample={"fn": owner, "skippers": sorted(users[owner])} if owner.endswith("rule_clause") else None)
+
+
 def run(ctx):
     cr = ctx.lib
     keyword_synonyms(ctx, cr)
@@ -289,7 +395,8 @@ def run(ctx):
     index_forms(ctx, cr)
     type_block(ctx, cr)
     default_rule(ctx, cr)
+    comments_are_whitespace(ctx, cr)
     ctx.assumptions += [
         "nom's tag/char/alt/value combinators behave as documented (dependency)",
-        "ambiguity of ordered alternatives and whitespace/comment acceptance in every context are not decided",
+        "ambiguity of ordered alternatives and whitespace/comment acceptance inside a clause are not decided",
     ]
